@@ -312,6 +312,8 @@ def _job(args):
         return out
     hists = [j for j in r.json if isinstance(j, dict) and "steps" in j]
     r.json = None; r.out = ""
+    # TLC's workers print in any order: a canonical order makes the rotation of the modes (and the examples reported) reproducible
+    hists.sort(key=lambda h: json.dumps([h["init"], [(s["a"], s["o"], s["x"]) for s in h["steps"]]], sort_keys=True))
     # per-action coverage = the calls that are actually replayed (TLC's -coverage costs 5x the run)
     cov = {a: [0, 0] for a in ACTIONS}; per_kind = {}; viol = {}; seen = 0; nmodes = 0; sample = None
     for h in hists:
